@@ -182,6 +182,16 @@ class Gen:
             clauses.append(f'ret {rid}')
             conds.append((cond, rid))
             rid += 1
+            if o >= 1 and self.r.chance(1, 8):      # Matches(Pair{args, k}, ...) = one When(args).Return(k) per pair
+                prs = []
+                for _ in range(1 + self.r.below(2)):
+                    n = self.arity(name)
+                    sp = self.specs(name, n)
+                    prs.append(f'[{",".join(show_spec(s) for s in sp)}]={rid}')
+                    conds.append((('when', sp), rid))
+                    rid += 1
+                clauses.append('matches ' + ' '.join(prs))
+                self.count('clause.matches')
             if malformed and self.r.chance(1, 5):
                 wf = False
                 extra = self.r.below(5)
@@ -315,7 +325,7 @@ def oracle(info, obs, stats=None):
     reg = toks[:nc]
     if 'stop' in toks or any(t != 'ok' for t in reg):
         bad = next((t for t in toks if t.startswith('panic:')), '?')
-        if bad in ('panic:arglen', 'panic:whenerr', 'panic:inerr', 'panic:reterr'):
+        if bad in ('panic:arglen', 'panic:retlen', 'panic:whenerr', 'panic:inerr', 'panic:reterr'):
             if stats is not None:
                 stats['rejected-at-registration'] = stats.get('rejected-at-registration', 0) + 1
             return None    # an explicit rejection of the configuration, not a wrong answer
@@ -400,7 +410,7 @@ def execute(ops, tag='c04'):
 
 def variants(op):
     """smaller lines: a single call; one condition (clause + its ret) removed"""
-    parts = [x.strip() for x in op.split('|')]
+    parts = [x.strip() for x in op.split(' | ')]     # sections are separated by ' | '; a bare '|' belongs to an In expression
     if len(parts) != 3:
         return []      # a value containing '|' (or a malformed line): do not shrink
     head, cl, ca = parts
@@ -419,6 +429,7 @@ def variants(op):
 
 def shrink(op, key, binary):
     """greedy delta debugging on the implementation only (the oracle decides), at most 12 rounds"""
+    what = None
     for _ in range(12):
         cands = variants(op)
         if not cands:
@@ -433,12 +444,12 @@ def shrink(op, key, binary):
             except Exception:
                 why = None
             if why and why[1] == key:
-                nxt = c
+                nxt, what = c, why[0]
                 break
         if nxt is None:
             break
         op = nxt
-    return op
+    return op, what
 
 
 def run(tier):
@@ -472,7 +483,8 @@ def run(tier):
             continue
         seen.add(key)
         try:
-            small = shrink(ops[i], key, build_probe()) if impl[i] != 'crash' else ops[i]
+            small, what2 = shrink(ops[i], key, build_probe()) if impl[i] != 'crash' else (ops[i], None)
+            what = what2 or what
         except Exception:       # the shrinker is a convenience; a failure to shrink must never hide the violation
             small = ops[i]
         out.violation(f'{small}: {what}', {'kind': 'impl-oracle', 'ops': [small], 'original_op': ops[i], 'observed': impl[i], 'why': what, 'finding': key,
@@ -526,7 +538,7 @@ def run(tier):
 
 def parse_line(op):
     """rebuild the oracle's view from an op line (replay)"""
-    secs = [s.strip() for s in op.split('|')]
+    secs = [s.strip() for s in op.split(' | ')]
     head = secs[0].split()
     name, mode = head[2], head[1]
     clauses = [c.strip() for c in secs[1].split(';') if c.strip()]
@@ -571,6 +583,15 @@ def parse_line(op):
         i = 1
     while i < len(clauses) and wf:
         c = clauses[i].split()
+        if c[0] == 'matches' and i > 0 and T[name][3] >= 1:      # one When(args).Return(k) per pair
+            for pr in c[1:]:
+                a, _, kk = pr.rpartition('=')
+                if not a.startswith('['):
+                    wf = False
+                    break
+                view['conds'].append((('when', plist(a, 1, ']')[0]), int(kk)))
+            i += 1
+            continue
         if i + 1 >= len(clauses) or not clauses[i + 1].startswith('ret '):
             wf = False
             break
